@@ -123,8 +123,10 @@ CLAIMS = {
          "non-blank delimiter set and not in continuation position) makes the model of read_file fail with exactly that code, "
          "the reported line is the 1-based number of that line, whatever follows; C13_no_partial; C13_enum_matches_model, "
          "C13_messages, C13_errstring over the enum and message table REGENERATED from libeconf.h / econf_error.c on every "
-         "run. Layered reads (n-th drop-in malformed) are covered by the correspondence runs of C01/C06 (model of the layered "
-         "reader), no separate theorem yet."),
+         "run; C13_location_is_a_record; C13_reported_name_absolute / _fixed_point (PathFacts.v: the reported name is absolute "
+         "whatever the caller's spelling, and resolving it again changes nothing). Layered reads (n-th drop-in malformed) are "
+         "compared with the model of the layered reader; the same relative name after chdir is compared with the read by the "
+         "absolute name."),
    technique="Coq proof (line lemmas + induction over the prefix) + generated source tables + differential correspondence",
    ref="6 (C13)"),
  "C14": dict(
